@@ -19,7 +19,7 @@ import (
 
 type IsoRow struct {
 	Group  string `json:"group"`
-	Kind   string `json:"kind"` // together rerun form perm split shrink otherfiles race exit
+	Kind   string `json:"kind"` // together rerun form perm split shrink grouped otherfiles race exit
 	Pkg    string `json:"pkg,omitempty"`
 	File   string `json:"file,omitempty"`
 	Cfg    string `json:"cfg,omitempty"`
@@ -360,6 +360,58 @@ func isoMain(args []string) {
 				}
 			}
 			r.compare(group, "shrink", pkg, "generate; drop the markers of half of the fields of every struct; regenerate", ref, got, srcOf[pkg]+"\n// ---- shrunk to ----\n"+smallSrc, "")
+		}
+		// ---- grouped declaration: the file generated for a struct of a `type ( … )` group must not depend on which sibling
+		// specs stand in the group, or on their order (markers on the group, markers on each spec, a spec without its own)
+		{
+			gdoc := [][]Marker{{{ID: "required"}}, {{ID: "maxlength", Expr: "5", HasExpr: true}}, {{ID: "gt", Expr: "0", HasExpr: true}, {ID: "required"}}}[gi%3]
+			own := [][]Marker{
+				{{ID: "maxlength", Expr: "10", HasExpr: true}},
+				{{ID: "maxlength", Expr: "20", HasExpr: true}, {ID: "minlength", Expr: "2", HasExpr: true}},
+				nil,
+				{{ID: "lte", Expr: "99", HasExpr: true}},
+			}
+			var decls []*Decl
+			for di, ms := range own {
+				decls = append(decls, &Decl{Name: fmt.Sprintf("G%c", 'A'+di), Group: "g", GroupDoc: gdoc, Markers: ms, Fields: []*Field{
+					{Names: []string{"Name"}, Type: stringT},
+					{Names: []string{"Age"}, Type: basicT("int", "Int")},
+				}})
+			}
+			grpRoot := filepath.Join(mod, group+"grp")
+			gen1 := func(sub string, ds []*Decl) (map[string]string, string) {
+				sc := newScenario(group + "grp")
+				sc.Decls = ds
+				src := sc.Source("pgrp")
+				_ = os.RemoveAll(filepath.Join(grpRoot, sub))
+				writePkg(grpRoot, sub, map[string]string{"x.go": src})
+				if o, c := r.run(mod, 4, base.govalid, "./"+group+"grp/"+sub); c != 0 {
+					r.emit(IsoRow{Group: group, Kind: "exit", Pkg: sub, Cfg: "grouped declaration", OK: false, Detail: tail(o, 800), Source: src})
+				}
+				return validators(filepath.Join(grpRoot, sub)), src
+			}
+			alone := map[string]string{}
+			for _, d := range decls {
+				v, _ := gen1("alone"+d.Name, []*Decl{d})
+				for n, c := range v {
+					alone[n] = c
+				}
+			}
+			orders := [][]int{{0, 1, 2, 3}, {3, 2, 1, 0}, {1, 0, 3, 2}, {2, 0}, {1, 3}}
+			for oi, ord := range orders {
+				var ds []*Decl
+				want := map[string]string{}
+				for _, i := range ord {
+					ds = append(ds, decls[i])
+					fn := "x_" + strings.ToLower(decls[i].Name) + "_validator.go"
+					if c, ok := alone[fn]; ok {
+						want[fn] = c
+					}
+				}
+				got, src := gen1(fmt.Sprintf("ord%d", oi), ds)
+				r.compare(group, "grouped", fmt.Sprintf("ord%d", oi), fmt.Sprintf("specs of one type group in the order %v, each compared with the same spec alone in the group", ord), want, got, src, "")
+			}
+			_ = os.RemoveAll(grpRoot)
 		}
 		// ---- race detector on the multi-package run
 		if raceBin != "" && K >= 5 {
